@@ -864,6 +864,8 @@ func (vm *vm) handleThrow(arg interface{}) *Exception {
 		vm.privEnv = tf.privEnv
 		if ex != nil {
 			_ = vm.restoreStacks(tf.iterLen, tf.refLen)
+			// closing the iterators runs script code which may have grown (re-allocated) the try stack
+			tf = &vm.tryStack[len(vm.tryStack)-1]
 		} else {
 			// uncatchable (interrupt, stack overflow) or foreign panic: no script code may run, the open
 			// iterators are dropped without calling their return() method
